@@ -36,7 +36,8 @@ def run(ctx):
     rng = random.Random(ctx.seed)
     ctx.cov["rule"] = ("cases = (string collection, entry point / algorithm, string-set representation, LCP output or not, memory limit): every sequence of <= 2 (quick) / 3 "
                        "(thorough) strings over bytes {1, 2, 255} up to length 2, shaped collections (duplicates, shared prefixes, all equal, high bytes, empty strings) of sizes "
-                       "across the 32 insertion-sort threshold, and large collections across the 65536 threshold (thorough: all four sizes x several variants); algorithms x "
+                       "across the 32 insertion-sort threshold, and large collections across the 65536 threshold (thorough: all four sizes x several variants), incl. one with >= 65536 strings sharing a 9-byte prefix (the only way "
+                       "into the recursion and the memory-limit fall-back of the 16-bit radix sorters); algorithms x "
                        "representations x LCP x memory limits {0, 1, 4096, 1e6, 1e9} rotate; non-trivial = at least 2 strings; distinct by content")
     tlc_mc(ctx, SD, "MC_StrSortA", "mc_ssa_run.cfg", workers=8, coverage=False, timeout=3000,
            cfg_text="CONSTANTS Bytes = {1, 2, 255}\n MaxLen = %d\nSPECIFICATION Spec\nINVARIANT Laws\nCHECK_DEADLOCK FALSE\n" % (2 if quick else 3))
@@ -100,6 +101,27 @@ def run(ctx):
             # (7 = radixsort_CI3 only runs its own 16-bit loop from 65536 strings on: tools/coverage.py showed it was never reached before)
             for (a, s, lcp, mem) in (((0, 0, 1, 0), (5, 1, 1, 4096), (7, 0, 1, 0)) if quick else ((0, 0, 1, 0), (5, 1, 1, 4096), (0, 1, 0, 1), (5, 2, 1, 1000000), (5, 0, 0, 1), (7, 0, 1, 0), (7, 1, 0, 4000000), (7, 0, 0, 2000000))):
                 big.append(sline(a * 16 + s * 2 + lcp, mem, strs))
+    # deep 16-bit recursion: the 16-bit radix sorters (CE3, CI3) recurse, or fall back to multikey quicksort under a memory limit, only for a bucket of
+    # >= 65536 strings that share two more bytes; none of the collections above has one (round-4 seeded change: CI3 recursing with base 0).  >= 65536 strings
+    # share a 9-byte prefix (five 16-bit levels), a few strings sort before and behind the big bucket at every level.
+    S16 = 524400        # about sizeof(RadixStep_CE3 / _CI3): 65536 bucket counters
+    for rep in range(1 if quick else 3):
+        pre = [rng.choice((98, 99, 200)) for _ in range(9)]
+        n = 65536 + rng.randint(0, 300)
+        strs = [pre + [rng.choice((97, 98, 99, 255)) for _ in range(rng.randint(0, 3))] for _ in range(n)]
+        for d in range(0, 9):
+            for c in (1, 255, pre[d] - 1, pre[d] + 1):
+                strs.append(pre[:d] + [c] + [rng.choice((97, 98))] * rng.randint(0, 2))
+            strs.append(pre[:d])
+        rng.shuffle(strs)
+        n = len(strs)
+        ce3_use, ci3_use = 10 * n + 32, 2 * n + 32
+        variants = [(7, 0, 1, 0), (5, 0, 1, 0), (7, 1, 0, 0), (5, 0, 1, ce3_use + int(3.5 * S16)), (7, 0, 1, ci3_use + int(3.5 * S16))]
+        if not quick:
+            variants += [(5, 1, 0, 0), (7, 2, 1, 0), (5, 0, 0, ce3_use + int(4.5 * S16)), (7, 0, 0, ci3_use + int(4.5 * S16)), (5, 2, 1, ce3_use + int(5.5 * S16)),
+                         (0, 0, 1, 0), (0, 1, 1, ci3_use + int(3.5 * S16))]
+        for (a, s_, lcp, mem) in variants:
+            big.append(sline(a * 16 + s_ * 2 + lcp, mem, strs))
     for ln in lines + big:
         ctx.count_case(ln, nontrivial=int(ln.split()[2]) >= 2)
     ctx.cov["large_cases"] = len(big)
